@@ -128,7 +128,7 @@ def obligations():
         for sh in ('tet', 'twotets'):
             n = '%s.%s' % (qn, sh)
             pre = '  TK m; { static const int W0[] = {SHAPE_W}; int aa[4]; unwitness(W0, &m, aa); }'
-            post = q['post'](n) + [A('same_state(&o, &m)', 'query leaves the whole mesh state unchanged (write frame: C20)', n), A('ovm_exc == 0', 'no_exception', n)]
+            post = q['post'](n) + [A('same_state(&o, &m) && TopologyKernel__seq(&o, &m)', 'query leaves the whole mesh state unchanged (write frame: C20)', n), A('ovm_exc == 0', 'no_exception', n)]
             import re as _re
             w = ['0', '0', '0', '0']
             for mm in _re.finditer(r'(\w+) = ARG\((\d)\)', q['args']): w[int(mm.group(2))] = mm.group(1)
